@@ -127,6 +127,77 @@ def process(job):
     return out
 
 
+def orcc_leg(scratch, env):
+    """orcc --binary --target T: the listing orcc writes (what users assemble)
+    against the code bytes orcc writes next to it, for every corpus file."""
+    import subprocess
+    from c01 import CORPUS
+    orcc = vlib.build_tool("orcc")
+    viols = []
+    tot = {"functions": 0, "insns": 0, "equal": 0, "files": 0}
+    # one source per function, so that a function one target cannot compile does not take the file with it
+    sources = []
+    for rel in CORPUS:
+        p = os.path.join(vlib.REPO, rel)
+        if not os.path.exists(p):
+            continue
+        parts = re.split(r"(?m)^(?=\.function\b)", open(p).read())
+        for j, part in enumerate(parts):
+            if not part.startswith(".function"):
+                continue
+            fn = os.path.join(scratch, "src_%d_%d.orc" % (len(sources), j))
+            open(fn, "w").write(part)
+            sources.append(("%s#%s" % (rel, part.split()[1]), fn))
+    for k, (rel, src) in enumerate(sources):
+        for t in ("sse", "avx", "mmx"):
+            d = os.path.join(scratch, "orcc_%d_%s" % (k, t))
+            os.makedirs(d)
+            r = subprocess.run([orcc, "--binary", "--target", t, "-o", "out.s", src], cwd=d, env=env, stdout=subprocess.PIPE, stderr=subprocess.PIPE, timeout=600)
+            bins = sorted(glob.glob(os.path.join(d, "*_%s.bin" % t)))
+            if not os.path.exists(os.path.join(d, "out.s")) or not bins:
+                # programs the target cannot compile make orcc fail as a whole: not this property's subject
+                continue
+            tot["files"] += 1
+            with open(os.path.join(d, "bin.s"), "w") as f:
+                for b in bins:
+                    name = os.path.basename(b)[:-len("_%s.bin" % t)]
+                    data = open(b, "rb").read()
+                    f.write(".text\n.p2align 4\n%s:\n" % name)
+                    for i in range(0, len(data), 16):
+                        f.write(".byte " + ",".join("0x%02x" % c for c in data[i:i + 16]) + "\n")
+                    f.write("  ud2\n")
+            # orcc's listing: comment lines are C comments, fine for as
+            ok, errs = vasm.assemble(os.path.join(d, "out.s"), os.path.join(d, "lst.o"), 64)
+            if not ok:
+                viols.append({"t": "viol", "key": "C12|orcc|%s|rejected|%s" % (t, rel), "what": "as rejects orcc --assembly --target %s output for %s: %s" % (t, rel, errs[:3]),
+                              "replay": {"file": rel, "target": t}})
+                continue
+            ok, errs = vasm.assemble(os.path.join(d, "bin.s"), os.path.join(d, "bin.o"), 64)
+            A = vasm.disassemble(os.path.join(d, "lst.o"))
+            B = vasm.disassemble(os.path.join(d, "bin.o"))
+            for name, b in B.items():
+                a = A.get(name)
+                if a is None:
+                    viols.append({"t": "viol", "key": "C12|orcc|%s|missing|%s" % (t, rel), "what": "function %s has code bytes but no label in orcc's listing (%s, %s)" % (name, rel, t),
+                                  "replay": {"file": rel, "target": t, "name": name}})
+                    continue
+                tot["functions"] += 1
+                tot["insns"] += len(b)
+                if a == b:
+                    tot["equal"] += 1
+                    continue
+                kx = 0
+                while kx < len(a) and kx < len(b) and a[kx] == b[kx]:
+                    kx += 1
+                la = a[kx] if kx < len(a) else "<end>"
+                lb = b[kx] if kx < len(b) else "<end>"
+                viols.append({"t": "viol", "key": "C12|orcc|%s|diff|%s != %s" % (t, vasm.reduce_form(la), vasm.reduce_form(lb)),
+                              "what": "orcc --binary --target %s %s: function %s instruction %d: listing assembles to `%s`, the .bin file decodes to `%s`" % (t, rel, name, kx, la, lb),
+                              "replay": {"file": rel, "target": t, "name": name}})
+            shutil.rmtree(d, ignore_errors=True)
+    return tot, viols
+
+
 def run(ctx):
     tier = ctx["tier"]
     exe = vlib.build_engine("xasm", "plain")
@@ -163,6 +234,8 @@ def run(ctx):
                     tot[k] += o[k]
                 viols.extend(o["viol"])
         shutil.rmtree(d, ignore_errors=True)
+    otot, oviols = orcc_leg(scratch, env)
+    viols.extend(oviols)
     shutil.rmtree(scratch, ignore_errors=True)
     # merge duplicate keys across shards
     seen = {}
@@ -177,7 +250,9 @@ def run(ctx):
                 "L2 pairs and L3 chains) compiled for sse, avx and mmx under every flag vector of {host features} x {64-bit, 32-bit} x "
                 "{frame pointer} x {long, short jumps} (thorough: plus every subset of each target's feature bits x {64,32}); each "
                 "successful compile contributes one (listing, code bytes) pair; a pair is evaluated by assembling both with GNU as and "
-                "comparing objdump's instruction sequences; non-trivial = the listing assembled and was compared"
+                "comparing objdump's instruction sequences; non-trivial = the listing assembled and was compared. orcc leg: for every corpus "
+                "file x {sse,avx,mmx}, the listing written by orcc --binary --target T is assembled and compared the same way with the "
+                "<function>_<target>.bin files orcc writes next to it"
                 % ", ".join(p[0] for p in plans),
         "samples": [{"plans": plans, "flag_vectors": nvec}],
         "flag_vectors": nvec,
@@ -190,6 +265,7 @@ def run(ctx):
         "branch_targets_compared": tot["branches"],
         "assembler_runs": tot["as_runs"],
         "program_space_size": int(st.get("space_size", 0)),
+        "orcc_binary_leg": otot,
         "exhaustive": not res.incomplete,
     }
     assumptions = [
